@@ -3,9 +3,11 @@ package main
 
 import (
 	"fmt"
+	"go/constant"
 	"go/token"
 	"go/types"
 	"sort"
+	"strings"
 
 	"golang.org/x/tools/go/ssa"
 )
@@ -243,7 +245,22 @@ func ruleNormalise(c *Ctx, rule string, shorts ...string) {
 					if callee != nil && callee.Pkg != nil {
 						pp := callee.Pkg.Pkg.Path()
 						if (pp == "bytes" || pp == "strings") && trims[callee.Name()] {
-							trimmed++
+							switch callee.Name() {
+							case "TrimSpace", "Fields":
+								trimmed++
+								continue
+							case "TrimRight", "Trim":
+								// the cutset must cover both CR and LF
+								if k, ok := cc.Args[1].(*ssa.Const); ok && k.Value != nil && strings.Contains(constant.StringVal(k.Value), "\r") && strings.Contains(constant.StringVal(k.Value), "\n") {
+									trimmed++
+									continue
+								}
+							}
+							// a trim that does not remove CR: the result is still raw
+							if rv, ok := r.(ssa.Value); ok && !raw[rv] {
+								raw[rv] = true
+								work = append(work, rv)
+							}
 							continue
 						}
 						if (pp == "bytes" || pp == "strings") && splitters[callee.Name()] {
